@@ -40,6 +40,7 @@ func c12Body(e *Env) {
 	d := e.NewDisk("queue")
 	p := NewPQ(e, d, cfg)
 	p.Prop = "C12"
+	p.CheckCounters = rng.Intn(2) == 0 // C17 oracle on full files
 	defer func() { c.Tasks = map[string][]Op{"main": p.Ops} }()
 	if err := p.Open(); err != nil {
 		e.Fail("C12", "open-failed", "creating file and queue failed: %+v", err)
